@@ -206,7 +206,7 @@ COMPONENTS = [
     Component('methods', check_method,
               strategy=lambda tier: S.method_cases(8, True),
               nontrivial=method_nontrivial, classes=c01.classes,
-              budget={'quick': 16000, 'thorough': 480000},
+              budget={'quick': 16000, 'thorough': 240000},
               describe='random method frames, all 64 classes'),
     Component('subsets', check_header, cases=c02.subset_cases,
               nontrivial=c02.nontrivial, classes=c02.classes,
@@ -214,24 +214,24 @@ COMPONENTS = [
               describe='all 8192 property subsets x 2 value sets'),
     Component('headers', check_header, strategy=c02.header_cases,
               nontrivial=c02.nontrivial, classes=c02.classes,
-              budget={'quick': 8000, 'thorough': 240000},
+              budget={'quick': 8000, 'thorough': 120000},
               describe='random content headers'),
     Component('others', check_frame, strategy=other_cases,
               nontrivial=other_nontrivial,
               classes=lambda c: ['kind=' + c['kind']],
-              budget={'quick': 3200, 'thorough': 64000},
+              budget={'quick': 3200, 'thorough': 32000},
               describe='bodies, heartbeats, protocol headers'),
     Component('values', check_value, strategy=c03.value_cases,
               nontrivial=value_nontrivial, classes=c03.classes,
-              budget={'quick': 16000, 'thorough': 480000},
+              budget={'quick': 16000, 'thorough': 240000},
               describe='field values / arrays / tables'),
     Component('deep', check_value, strategy=c03.deep_cases,
               nontrivial=value_nontrivial, classes=c03.classes,
-              budget={'quick': 3200, 'thorough': 64000},
+              budget={'quick': 3200, 'thorough': 32000},
               describe='container chains to depth 32'),
     Component('prims', check_prim, strategy=prim_cases,
               classes=lambda c: ['fn=' + c['fn']],
-              budget={'quick': 16000, 'thorough': 320000},
+              budget={'quick': 16000, 'thorough': 160000},
               describe='each primitive encoder over its range'),
     Component('prim16', check_prim, cases=prim_sweep,
               classes=lambda c: ['fn=' + c['fn']],
